@@ -138,7 +138,10 @@ WorldsOf(Fam) ==
 
 \* established parts that put a family's worlds where its interesting flows start (WithPre)
 PreVariants(Fam) ==
-  CASE Fam = "remember" -> { << [Ev("LoginPost", "b1") EXCEPT !.pid = "u1", !.pw = 1, !.rm = TRUE], Ev("DropSession", "b1") >> }
+  CASE Fam = "remember" -> { << [Ev("LoginPost", "b1") EXCEPT !.pid = "u1", !.pw = 1, !.rm = TRUE], Ev("DropSession", "b1") >>,
+                             \* ... and somebody else logged in on the other browser
+                             << [Ev("LoginPost", "b1") EXCEPT !.pid = "u1", !.pw = 1, !.rm = TRUE], Ev("DropSession", "b1"),
+                                [Ev("LoginPost", "b2") EXCEPT !.pid = "u2", !.pw = 2] >> }
     [] Fam = "expire"   -> { << [Ev("LoginPost", "b1") EXCEPT !.pid = "u1", !.pw = 1] >> }
     [] Fam = "recover"  -> { << [Ev("RecoverStart", "b1") EXCEPT !.pid = "u1"] >> }
     [] Fam = "otp"      -> { << [Ev("LoginPost", "b1") EXCEPT !.pid = "u2", !.pw = 2] >> }
@@ -187,8 +190,8 @@ EventsOf(Fam, S, c) ==
          \cup Admin({"AdminLock", "AdminUnlock"}, {"u1"})
          \cup { Ev("Probe", "b1") }
     [] Fam = "remember" ->
-         { [Ev("LoginPost", b) EXCEPT !.pid = p, !.pw = w, !.rm = r] :
-              b \in Browsers, p \in {"u1", "u2"}, w \in {1, -1}, r \in BOOLEAN }
+         UNION { { [Ev("LoginPost", b) EXCEPT !.pid = pw[1], !.pw = w, !.rm = r] : b \in Browsers, w \in {pw[2], -1}, r \in BOOLEAN } :
+                   pw \in { <<"u1", 1>>, <<"u2", 2>> } }
          \cup ProbeLogout(c)
          \cup { [Ev("StealCookie", "b1") EXCEPT !.k = "b2"], Ev("DropSession", "b1"), Ev("DropSession", "b2"),
                 Ev("JunkCookie", "b2") }
